@@ -84,6 +84,7 @@ import (
 
 const (
 	c12lServer   = "verif-c12-server"
+	c12lNoServer = "verif-c12-no-such-server"
 	c12lPartName = "listener-update-histories"
 	c12lNetType  = "verif_c12_network"
 	c12lLFType   = "verif_c12_listener_filter"
@@ -222,6 +223,7 @@ func c12lSetup() {
 //	set-notls  the same with tls_context {status:true} and no certificate (rejected: no certificate configured)
 //	set-2fc    the same with two filter chains (rejected: only one filter chain is supported)
 //	delete     DeleteListener(name)
+//	set-badserver / delete-badserver  the same calls with a server name the adapter does not know (rejected)
 type c12lOp struct {
 	Kind   string `json:"kind"`
 	Name   string `json:"name"`
@@ -233,8 +235,8 @@ type c12lOp struct {
 
 func (o c12lOp) String() string {
 	n := strings.TrimPrefix(o.Name, "verif-c12-")
-	if o.Kind == "delete" {
-		return "delete(" + n + ")"
+	if strings.HasPrefix(o.Kind, "delete") {
+		return o.Kind + "(" + n + ")"
 	}
 	return fmt.Sprintf("%s(%s,addr=%s,net=P%d,stream=%d,misc=%d)", o.Kind, n, o.Addr, o.Net, o.Stream, o.Misc)
 }
@@ -286,6 +288,10 @@ func c12lAlphabet(wide bool) []c12lOp {
 			}
 		}
 		out = append(out, c12lOp{Kind: "set-2fc", Name: name, Addr: "A", Net: 2, Stream: 1, Misc: 1})
+		if i == 0 || wide {
+			out = append(out, c12lOp{Kind: "set-badserver", Name: name, Addr: "A", Net: 2, Stream: 1, Misc: 1},
+				c12lOp{Kind: "delete-badserver", Name: name})
+		}
 	}
 	return out
 }
@@ -453,12 +459,18 @@ func (w *c12lWorld) apply(o c12lOp) (err error, panicked string) {
 	switch o.Kind {
 	case "delete":
 		err = w.adapter.DeleteListener("", o.Name)
-	case "set", "set-notls", "set-2fc":
+	case "delete-badserver":
+		err = w.adapter.DeleteListener(c12lNoServer, o.Name)
+	case "set", "set-notls", "set-2fc", "set-badserver":
 		lc, berr := c12lBuild(c12lOpParams(o))
 		if berr != nil {
 			return nil, "harness: " + berr.Error()
 		}
-		err = w.adapter.AddOrUpdateListener("", lc)
+		server := ""
+		if o.Kind == "set-badserver" {
+			server = c12lNoServer
+		}
+		err = w.adapter.AddOrUpdateListener(server, lc)
 	default:
 		panicked = "harness: unknown operation kind " + o.Kind
 	}
@@ -765,6 +777,8 @@ func (m c12lModel) expect(o c12lOp) string {
 	switch o.Kind {
 	case "delete":
 		return ""
+	case "set-badserver", "delete-badserver":
+		return "server name not found"
 	case "set-2fc":
 		return "filter chain count is not 1"
 	}
@@ -785,7 +799,8 @@ func (m c12lModel) step(o c12lOp, rejected bool) {
 			*nm = c12lNameModel{deleted: true, tainted: nm.tainted}
 		}
 	case rejected:
-		if nm.present {
+		// (a call the adapter refuses for its server name never reaches the listener)
+		if nm.present && !strings.HasSuffix(o.Kind, "-badserver") {
 			nm.tainted = true
 		}
 	case !nm.present:
@@ -1396,7 +1411,7 @@ func c12lBFS(t *testing.T, part string, wide bool, depth int) {
 		second = "the second name reduced to 3 configurations (one with the other address), delete and tls-without-certificate"
 	}
 	p.End(complete,
-		fmt.Sprintf("breadth-first search over histories of ListenerAdapter.AddOrUpdateListener / DeleteListener (default server, as the admin API and xDS call them) on a never-started server.NewServer, depth %d, alphabet of %d operations: per listener name {address A,B x network filter configuration P1,P2 x stream filters %v x 2 settings of the remaining fields (type, bind_port, read buffer size, idle timeout | inspector, original dst, match, listener filters); delete; tls on without certificate; two filter chains}, %s; dumps (config_dump view, InheritMosnconfig) after every history, DumpJSON on every new state",
+		fmt.Sprintf("breadth-first search over histories of ListenerAdapter.AddOrUpdateListener / DeleteListener (default server, as the admin API and xDS call them) on a never-started server.NewServer, depth %d, alphabet of %d operations: per listener name {address A,B x network filter configuration P1,P2 x stream filters %v x 2 settings of the remaining fields (type, bind_port, read buffer size, idle timeout | inspector, original dst, match, listener filters); delete; tls on without certificate; two filter chains; add and delete under an unknown server name}, %s; dumps (config_dump view, InheritMosnconfig) after every history, DumpJSON on every new state",
 			depth, len(alphabet), map[bool]string{false: "{none,[s1]}", true: "{none,[s1],[s2,s1]}"}[wide], second),
 		"every successor = the history replayed on a fresh world (configmanager.Reset, stream filter manager emptied, ResetAdapter, server.NewServer) plus one operation; states merged on the per-name projection (lookups, stored configuration, listener object, instantiated network/listener/stream filter chains, tls manager, live idle timeout, effective-configuration entry, dumped entry, hidden activeListener fields) plus the reference model's state; compared on every transition: acceptance/rejection against the documented rules, (1) every field against the model 'last accepted configuration, non-updatable fields from the add', (3) absent names are absent from lookups, effective configuration and dump, (4) a rejected operation leaves every field of both names unchanged; on every NEW state (they are functions of the state): dumps are read-only and DumpJSON agrees with the config_dump view, (2) equality with a fresh world given only the final configurations, (5) equality with a fresh server loaded from InheritMosnconfig's output via ParseListenerConfig+AddListener, plus a replay-twice self-check of the reset (states that are expanded). The idle timeout is the one field the code treats both ways (live value follows the update, stored value stays): the model accepts the add's or the last update's value provided one of the two explains the stored, live, effective and dumped values together. Not compared: the stream filter manager entry of a name without listener, the number of Start calls (asynchronous), configmanager's write-only per-listener factory maps. Not in the alphabet: access logs, udp/unix listeners, unnamed listeners, valid tls contexts (C13), buffer limit / tag (not in the JSON form), several servers")
 }
